@@ -198,8 +198,14 @@ func VerifC03Pure() {
 	p := NewPair()
 	k := lit()
 	var f node.Type
-	fk := vrt.Choice("function", 9)
+	fk := vrt.Choice("function", 10)
 	switch fk {
+	case 9: // a closure escapes from a generator that is abandoned while suspended; a loop follows
+		// (its generator may take over the abandoned one's context); the closure is called before and after
+		p.steps("define", false,
+			asg("mkg2", fn(blk(asg("y", bin("*", nm("n"), ilit(3))), asg("g", fn(bin("+", nm("y"), nm("q")), "q")), yld(nm("g")), asg("y", ilit(0)), yld(nm("g"))), "n")),
+			asg("firstclo", fn(blk(forl("h", call("mkg2", nm("n")), ret(nm("h"))), ilit(0)), "n")))
+		f = fn(blk(asg("c", call("firstclo", nm("a"))), asg("v1", call("c", k)), asg("t", ilit(0)), forl("e", call("fromto", ilit(0), ilit(3)), asg("t", bin("+", nm("t"), nm("e")))), node.List{Elems: []node.Type{nm("v1"), call("c", k), nm("t")}}), "a")
 	case 8: // a generator makes a closure, its own stack grows, it updates the captured variable and
 		// yields the closure; the loop calls it
 		p.steps("define", false,
